@@ -88,6 +88,8 @@ def layouts():
         "partitioned": [["p", "array", 2, [[0, 6]]]],
         "two_arrays": [["a", "array", None, [[0, 1]]], ["b", "array", 2, [[4, 8]]]],
         "gappy": [["a", "bin", [1, 3]], ["b", "array", None, [5, 7]]],
+        "multi_range_array": [["a", "array", None, [[1, 2], 5, [8, 9]]], ["z", "bin", [12]]],
+        "wild": [["w", "wild", [[0b0100, 0b1100]]], ["lo", "bin", [[0, 3]]], ["hi", "bin", [[8, 15]]]],
     }
 
 
@@ -104,7 +106,8 @@ def shapes(t, sd):
     names = list(L)
     pairs = list(itertools.product(names, repeat=2))
     ns = 2 if t == "quick" else 3
-    seq_pairs = {("array_then_singles", "partitioned"), ("singles", "partitioned"), ("gappy", "partitioned"), ("partitioned", "partitioned")}
+    seq_pairs = {("array_then_singles", "partitioned"), ("singles", "partitioned"), ("gappy", "partitioned"), ("partitioned", "partitioned"),
+                 ("wild", "partitioned"), ("partitioned", "wild"), ("multi_range_array", "partitioned")}
     for l1, l2 in pairs:
         for iffs in ((False, False, False), (True, False, False), (False, True, True), (True, True, True)):
             if t == "quick":
